@@ -4,6 +4,7 @@ import itertools
 from .. import common as C
 from .. import impl, instgen
 from ..engine import Relation
+from .. import lpcommon
 
 REQ = ['Text.Import', 'Spec.Stability', 'Checker.CheckStability', 'Corr.C06Corr']
 
@@ -123,4 +124,36 @@ class CheckerSpec(Checker):
                 yield dict(inp, m=m2)
 
 
-RELATIONS = [Checker(), CheckerSpec()]
+class StabLine(lpcommon.LPRelation):
+    name = 'M_stab_line'
+    kind = 'monitor'
+    requires = REQ + lpcommon.REQ
+    gen_kwargs = dict(stab_bias=1.0, force_twopl=True)
+    n_quick = 80
+    n_thorough = 500
+    large_cases = 4
+    describe = ('real Solver runs with -stab (two-sided 2- and 3-agent instances, zero capacities, -pc, 0..4 criteria): '
+                'the short and the long results of every Optimal run must carry the line "stability_correct: True", and '
+                'the printed matching must be stable by stable_b evaluated in Coq')
+
+    def observe(self, inp):
+        return lpcommon.lp_run(inp['text'], inp['argv'], getters=('get_results', 'get_results_long'))
+
+    def term(self, inp, obs):
+        if obs['exc']:
+            return '(negb (mon_in_scope %s))' % lpcommon.head(inp)
+        if obs['status'] != 'Optimal':
+            return 'true'
+        for t in obs['texts']:
+            if t[0] != 'ok' or 'stability_correct: True\n' not in t[1]:
+                return '(negb (mon_in_scope %s))' % lpcommon.head(inp)
+        m = self.matching(obs)
+        if m is None:
+            return 'false'
+        return '(mon_stable %s %s)' % (lpcommon.head(inp), C.czlist(m))
+
+    def what(self, inp, obs):
+        return 'run %r on %r: stability_correct line missing / not True, or printed matching unstable' % (inp['argv'], inp['text'])
+
+
+RELATIONS = [Checker(), CheckerSpec(), StabLine()]
